@@ -1,14 +1,14 @@
 #!/bin/sh
-# tools/harmmatrix.sh [jobs] : run ALL quick checks against every
+# tools/harmmatrix.sh [jobs] [id-pattern] [output file] : run ALL quick checks against every
 # behaviour-preserving change under seeded_harmless/ (scratch worktrees, see
 # mutrun.sh) and write seeded_harmless/RESULTS.txt: one line per (change,
 # property); any rc!=0 is an alarm on code where the property holds.
-J="${1:-4}"
+J="${1:-4}"; PAT="${2:-^H}"; OUT="${3:-RESULTS.txt}"
 cd /verif || exit 2
 PROPS=$(cat tools/ready.txt)
-ls seeded_harmless | grep '^H' | xargs -P "$J" -I{} sh -c \
+ls seeded_harmless | grep "$PAT" | xargs -P "$J" -I{} sh -c \
   "tools/mutrun.sh /verif/seeded_harmless/{}/patch.diff quick $PROPS 2>&1 | grep '^== ' | sed 's/^== /{} /' > /tmp/harm_{}.txt"
-cat /tmp/harm_H*.txt | sort > seeded_harmless/RESULTS.txt
+cat /tmp/harm_H*.txt | sort > seeded_harmless/$OUT
 rm -f /tmp/harm_H*.txt
-grep -c 'rc=0' seeded_harmless/RESULTS.txt
-grep -v 'rc=0' seeded_harmless/RESULTS.txt
+grep -c 'rc=0' seeded_harmless/$OUT
+grep -v 'rc=0' seeded_harmless/$OUT
